@@ -109,4 +109,52 @@ theorem ter_end_lines_finish (excl : List (List Char)) (ignh : Bool) (serial : N
     exact reads_as_finish pdb excl ignh _ _ _ (by decide) (by decide) (by decide) (by decide) (by decide)
       (by decide) (by decide)
 
+/-! ## non-vacuity: concrete instances of the hypotheses used above -/
+
+/-- columns 22–26 of an ATOM record are the residue number, 30–38 the x coordinate -/
+example : covers atomFmt .resid 22 26 = some ⟨' ', .right, 4, 0, .d, true⟩ ∧
+    covers atomFmt .x 30 38 = some ⟨' ', .dflt, 8, 3, .f, true⟩ ∧
+    covers atomFmt .resname 17 21 = some ⟨' ', .dflt, 3, 0, .s, true⟩ := by decide
+
+/-- residue number 9999 fits its four columns, 10000 does not; −12.345 Å fits eight columns -/
+example : (fieldBody ⟨' ', .right, 4, 0, .d, true⟩ (.int 9999)).length ≤ 4 ∧
+    ¬ (fieldBody ⟨' ', .right, 4, 0, .d, true⟩ (.int 10000)).length ≤ 4 ∧
+    (fieldBody ⟨' ', .dflt, 8, 3, .f, true⟩ (.fix (-12345))).length ≤ 8 := by decide +kernel
+
+/-- an over-long residue number loses its leading digit and nothing else moves -/
+example : renderField ⟨' ', .right, 4, 0, .d, true⟩ (.int 12345) = ['2', '3', '4', '5'] ∧
+    renderField ⟨' ', .dflt, 4, 0, .s, true⟩ (.str ['A', 'B', 'C', 'D', 'E']) = ['A', 'B', 'C', 'D'] ∧
+    renderField ⟨' ', .dflt, 8, 3, .f, true⟩ (.fix (-12345678)) = ['2', '3', '4', '5', '.', '6', '7', '8'] := by
+  decide +kernel
+
+/-- an atom whose residue number overflows and whose y coordinate overflows -/
+def exAtom : Atom :=
+  { key := 0, atomid := none, atomname := some ['C', 'A'], altloc := none, resname := some ['A', 'L', 'A'],
+    chain := some ['B'], resid := some 10000, icode := none, x := -12345, y := 99999999, z := 0,
+    occ := none, temp := none, element := none }
+
+def exPAtom : PAtom :=
+  { atomid := 10000, atomname := ['C', 'A'], altloc := [], resname := ['A', 'L', 'A'], chain := ['B'],
+    resid := 0, icode := [], x := (-12345, 3), y := (9999999, 3), z := (0, 3), occ := (100, 2),
+    temp := (0, 2), element := ['C'] }
+
+/-- a concrete written ATOM line is an atom line for the reader (hypothesis `ReadsAsAtom` of
+`ter_split`); the overflowing fields come back truncated, all others exactly -/
+example : ReadsAsAtom pdb [] false (atomLine pdb 10000 exAtom) exPAtom := by
+  intro st
+  have hd : decomment (atomLine pdb 10000 exAtom) ≠ [] ∧
+      classify (decomment (atomLine pdb 10000 exAtom)) = .atom ∧
+      (match parseAtomLine pdb [] false (decomment (atomLine pdb 10000 exAtom)) with
+        | .ok r => some r | .error _ => none) = some (.keep exPAtom) := by
+    decide +kernel
+  unfold pdbStep
+  simp only [hd.1, if_false, hd.2.1]
+  cases hp : parseAtomLine pdb [] false (decomment (atomLine pdb 10000 exAtom)) with
+  | error e => rw [hp] at hd; simp at hd
+  | ok r =>
+    rw [hp] at hd
+    simp only [Option.some.injEq] at hd
+    rw [hd.2.2]
+    rfl
+
 end C16
